@@ -615,3 +615,70 @@ func TestConcV2CreateVsSettings(t *testing.T) {
 		wg.Wait()
 	}
 }
+
+// A call that ends in the library's documented panic (a malformed expression) must not leave the client locked: after the
+// caller has recovered, other calls - from this and from other goroutines - go through. (A critical section that is left
+// by a hand-written Unlock instead of a deferred one stays locked when the call panics.)
+func panics(f func()) (p interface{}) {
+	defer func() { p = recover() }()
+	f()
+	return nil
+}
+
+func within(t *testing.T, what string, f func()) {
+	done := make(chan struct{})
+	go func() { defer close(done); f() }()
+	select {
+	case <-done:
+	case <-time.After(5 * time.Second):
+		t.Fatalf("DEADLOCK: %s did not return within 5 s after an earlier call had panicked", what)
+	}
+}
+
+func TestConcV2PanicLeavesClientUsable(t *testing.T) {
+	cl := c2.NewClient()
+	if err := c2.AddTable(ctx, cl, "tbl", "h", ""); err != nil {
+		t.Fatal(err)
+	}
+	key := map[string]t2.AttributeValue{"h": &t2.AttributeValueMemberS{Value: "k"}}
+	_, _ = cl.PutItem(ctx, &ddb2.PutItemInput{TableName: aws.String("tbl"), Item: key})
+	bad := aws.String("h = = :v")
+	vals := map[string]t2.AttributeValue{":v": &t2.AttributeValueMemberS{Value: "k"}}
+	calls := map[string]func(){
+		"Scan":       func() { _, _ = cl.Scan(ctx, &ddb2.ScanInput{TableName: aws.String("tbl"), FilterExpression: bad, ExpressionAttributeValues: vals}) },
+		"Query":      func() { _, _ = cl.Query(ctx, &ddb2.QueryInput{TableName: aws.String("tbl"), KeyConditionExpression: bad, ExpressionAttributeValues: vals}) },
+		"PutItem":    func() { _, _ = cl.PutItem(ctx, &ddb2.PutItemInput{TableName: aws.String("tbl"), Item: key, ConditionExpression: bad, ExpressionAttributeValues: vals}) },
+		"DeleteItem": func() { _, _ = cl.DeleteItem(ctx, &ddb2.DeleteItemInput{TableName: aws.String("tbl"), Key: key, ConditionExpression: bad, ExpressionAttributeValues: vals}) },
+		"UpdateItem": func() {
+			_, _ = cl.UpdateItem(ctx, &ddb2.UpdateItemInput{TableName: aws.String("tbl"), Key: key, UpdateExpression: aws.String("SET a = :v"), ConditionExpression: bad, ExpressionAttributeValues: vals})
+		},
+	}
+	for name, call := range calls {
+		_ = panics(call)
+		within(t, "GetItem after "+name, func() { _, _ = cl.GetItem(ctx, &ddb2.GetItemInput{TableName: aws.String("tbl"), Key: key}) })
+	}
+}
+
+func TestConcV1PanicLeavesClientUsable(t *testing.T) {
+	cl := c1.NewClient()
+	if err := c1.AddTable(cl, "tbl", "h", ""); err != nil {
+		t.Fatal(err)
+	}
+	key := map[string]*ddb1.AttributeValue{"h": {S: aws.String("k")}}
+	_, _ = cl.PutItem(&ddb1.PutItemInput{TableName: aws.String("tbl"), Item: key})
+	bad := aws.String("h = = :v")
+	vals := map[string]*ddb1.AttributeValue{":v": {S: aws.String("k")}}
+	calls := map[string]func(){
+		"Scan":       func() { _, _ = cl.Scan(&ddb1.ScanInput{TableName: aws.String("tbl"), FilterExpression: bad, ExpressionAttributeValues: vals}) },
+		"Query":      func() { _, _ = cl.Query(&ddb1.QueryInput{TableName: aws.String("tbl"), KeyConditionExpression: bad, ExpressionAttributeValues: vals}) },
+		"PutItem":    func() { _, _ = cl.PutItem(&ddb1.PutItemInput{TableName: aws.String("tbl"), Item: key, ConditionExpression: bad, ExpressionAttributeValues: vals}) },
+		"DeleteItem": func() { _, _ = cl.DeleteItem(&ddb1.DeleteItemInput{TableName: aws.String("tbl"), Key: key, ConditionExpression: bad, ExpressionAttributeValues: vals}) },
+		"UpdateItem": func() {
+			_, _ = cl.UpdateItem(&ddb1.UpdateItemInput{TableName: aws.String("tbl"), Key: key, UpdateExpression: aws.String("SET a = :v"), ConditionExpression: bad, ExpressionAttributeValues: vals})
+		},
+	}
+	for name, call := range calls {
+		_ = panics(call)
+		within(t, "GetItem after "+name, func() { _, _ = cl.GetItem(&ddb1.GetItemInput{TableName: aws.String("tbl"), Key: key}) })
+	}
+}
